@@ -111,6 +111,12 @@ def rule_a2(repo: Repo) -> List[Ob]:
             sp = params[1]
             defs = Defs(m.node, params[0])
             body_nodes = list(walk_no_nested(m.node))
+            # helpers of the class called from subs (one level) belong to its body for this rule
+            for n in list(body_nodes):
+                if isinstance(n, ast.Call) and isinstance(n.func, ast.Attribute) and isinstance(n.func.value, ast.Name) and n.func.value.id == params[0]:
+                    h = cls.find_method(n.func.attr)
+                    if h is not None and h.node is not m.node and h.name != "subs":
+                        body_nodes += list(walk_no_nested(h.node))
             # (a) discarded results
             for n in body_nodes:
                 if isinstance(n, ast.Expr) and isinstance(n.value, ast.Call) and call_name(n.value) in ("subs", "xreplace"):
@@ -826,6 +832,9 @@ def rule_a4_moment(repo: Repo) -> List[Ob]:
         key = f"{cls.relpath}::{cls.name}.get_moment"
         want_else = sorted([norm(ast.parse(f"1 - {cond}").body[0].value), norm(ast.parse(f"{selfn}.default ** {k}").body[0].value), rest])
         ok = len(else_terms) == 1 and sorted(else_terms[0][1]) == want_else
+        if not else_terms:
+            obs.append(inconclusive("A4-moment-shape", key + "::else", cls.relpath, m.node.lineno, m.qualname, "no summand with the factor (1 - cond) recognised"))
+            continue
         obs.append(Ob("A4-moment-shape", key + "::else", cls.relpath, m.node.lineno, m.qualname, ok,
                       "condition-false part is (1 - cond) * default**k * rest" if ok else
                       f"condition-false part is {[src(e) for e, _ in else_terms]}, expected (1 - {cond}) * ({selfn}.default ** {k}) * {rest}"))
@@ -922,8 +931,8 @@ RULES = {
     "A1-cond": Rule("A1-coverage", lambda r: rule_cover(r, "Condition"), 30, "condition methods consult / recurse into every child", lambda r: mut_cover(r, "Condition")),
     "A1-dist": Rule("A1-coverage", lambda r: rule_cover(r, "Distribution"), 30, "distribution methods consult every parameter field", lambda r: mut_cover(r, "Distribution")),
     "A1-assign": Rule("A1-coverage", lambda r: rule_cover(r, "Assignment"), 10, "assignment methods consult every right-side field", lambda r: mut_cover(r, "Assignment")),
-    "D1": Rule("D1-truthtable", rule_d1, 24, "evaluate / to_arithm of And, Or, Not, TrueCond, FalseCond tabulated over {F,T} / {0,1} agree with the boolean meaning; parser maps && || ! to them", mut_d1),
-    "D2": Rule("D2-operators", rule_d2, 11, "comparison-operator tables of the analysis (get_valid_values) and the simulator (evaluate_cop) are the identity and handle the same set", mut_d2),
-    "IMPLIED": Rule("A4-implied-spec", rule_implied, 6, "is_implied_by_loop_guard answers True only for marked conditions (And: all children, Or: some child)", mut_implied),
-    "A4M": Rule("A4-moment-shape", rule_a4_moment, 7, "the three get_moment bodies share the guarded-assignment shape IF + (1-cond)*default**k*rest", mut_a4_moment),
+    "D1": Rule("D1-truthtable", rule_d1, 24, "evaluate / to_arithm of And, Or, Not, TrueCond, FalseCond tabulated over {F,T} / {0,1} agree with the boolean meaning; parser maps && || ! to them", mut_d1, soft=True),
+    "D2": Rule("D2-operators", rule_d2, 11, "comparison-operator tables of the analysis (get_valid_values) and the simulator (evaluate_cop) are the identity and handle the same set", mut_d2, soft=True),
+    "IMPLIED": Rule("A4-implied-spec", rule_implied, 6, "is_implied_by_loop_guard answers True only for marked conditions (And: all children, Or: some child)", mut_implied, soft=True),
+    "A4M": Rule("A4-moment-shape", rule_a4_moment, 7, "the three get_moment bodies share the guarded-assignment shape IF + (1-cond)*default**k*rest", mut_a4_moment, soft=True),
 }
